@@ -94,6 +94,20 @@ CLAIMS = {
     technique="Lean 4 proof over all interleavings of an atomic-step model + scheduled executions of the real code (schedule = replay) checked against the model's schedule-independent predictions",
     note=NOTE_COMMON + " Partial in one respect: only instrumented operations are scheduling points; weak-memory behaviour and uninstrumented atomics are outside the model. Schedule exploration on the "
          "implementation is search, not proof. Found and fixed with this check: D6 (two nodes for one resource; fix: commit 577ba25)."),
+ "C15": dict(
+    category="proof",
+    text=("General theorems (any number of threads, any programs, every schedule): rank_no_deadlock (a ranking every program respects excludes deadlock in every reachable configuration; "
+          "invariant init_LInv / step_LInv / no_deadlock), ok_append / ok_flatten (sequences of ranked operations are ranked), acquire_needs_free. Instance, regenerated from executions of the "
+          "current source on every run (translator gen/C15_pre_lean.py -> SentinelProofs/Generated/LockTraces.lean): traces_ranked (by decide: every recorded manager function of all five "
+          "families, entry and exit path, breaker transitions with a listener calling back into read-only manager functions, respects one ranking and never re-acquires a held lock) and "
+          "managers_deadlock_free (any threads running any sequences of these operations never deadlock). Panic/poison freedom under concurrency is not a theorem here: it is searched for by "
+          "running 2-3 real threads under the deterministic scheduler (generated schedules; operations with inverted lock orders found by the translator are run against each other with a "
+          "preemption at every point) with panic capture and a health probe of all managers afterwards."),
+    design_ref="DESIGN.md §6 C15",
+    technique="Lean 4 proof (lock ranking => no deadlock, induction over reachable configurations) + kernel-checked instance generated from the code's executions + scheduled executions of real threads",
+    note=NOTE_COMMON + " RwLock acquisitions are ranked like exclusive ones. try_lock acquisitions and the state mutex of a breaker inside its own Drop (unreachable by other threads) are left out of "
+         "the ranking; both are counted in the evidence. The instance covers the code paths the recording executed. Found and fixed with this check: D8 (breakers dropped under the manager locks "
+         "with listener call-backs; fix: commit a631a53). D7 (append lock-order inversion) was fixed under C10."),
  "C08": dict(
     category="translation_validation",
     text=("PARTIAL. Proved in Lean: structural theorems about the executable warm-up calculator for every state/threshold/clock (sync_stored_le_max, sync_once_per_second, sync_idempotent, "
